@@ -107,9 +107,19 @@ func c10Sequential(in []byte) []rtcm.Message {
 }
 
 // c10Input: frames, junk and a corrupted frame with symbolic contents.
-func c10Input() []byte {
+func c10Input(shape int) []byte {
 	var in []byte
-	switch verifParam("shape", 0, 4) {
+	switch shape {
+	case 5:
+		// a junk run longer than the longest possible frame (1029 bytes),
+		// then two frames
+		j := verifBytes("junk", 1030)
+		for i := range j {
+			verifAssume(j[i] != 0xd3)
+		}
+		in = append(in, j...)
+		in = append(in, c11Frame("a", 2)...)
+		in = append(in, c11Frame("b", 2)...)
 	case 4:
 		// a CRC-valid MSM7 frame whose timestamp is out of range (all ones)
 		// between two other frames: reported with an error, still a valid frame
@@ -150,14 +160,21 @@ func c10Input() []byte {
 func VerifC10_Composed() {
 	verifOwnPanics()
 	verifHexModel()
-	mode := verifParam("schedule", 0, 2)
+	shape := verifParam("shape", 0, 5)
+	maxMode := 2
+	if shape == 5 {
+		// the long junk run goes byte by byte through an unbuffered channel:
+		// one-preemption schedules would be thousands; lazy and round-robin only
+		maxMode = 1
+	}
+	mode := verifParam("schedule", 0, maxMode)
 	verifSchedule(mode, 1)
 	display := verifParam("display", 0, 1) == 1
 	record := verifParam("record", 0, 1) == 1
 	dir := verifTempDir()
 	defer verifRemoveDir(dir)
 	cfg := &jsonconfig.Config{DisplayMessages: display, RecordMessages: record, MessageLogDirectory: dir}
-	in := c10Input()
+	in := c10Input(shape)
 	seq := c10Sequential(in)
 	var wantFrames []byte
 	wantDisplay := ""
